@@ -215,13 +215,9 @@ fn rename_in_bodyform(
             ))
         }
 
-        BodyForm::Quoted(atom) => match atom {
-            SExp::Atom(l, n) => match namemap.get(n) {
-                Some(named) => Ok(BodyForm::Quoted(SExp::Atom(l.clone(), named.to_vec()))),
-                None => Ok(BodyForm::Quoted(atom.clone())),
-            },
-            _ => Ok(BodyForm::Quoted(atom.clone())),
-        },
+        // A quoted value is data, not a reference to a variable: it keeps its
+        // spelling even when it happens to match a name being renamed.
+        BodyForm::Quoted(atom) => Ok(BodyForm::Quoted(atom.clone())),
 
         BodyForm::Value(atom) => match atom {
             SExp::Atom(l, n) => match namemap.get(n) {
